@@ -8,6 +8,18 @@ use crate::scenario::*;
 pub fn check(sc: &Scenario, res: &RunResult) -> Vec<Violation> {
     let mut out = Vec::new();
     let Some(opts) = util::dump_opts(sc) else { return out };
+    if let Some(d) = res.dumps.first() {
+        if let crate::run::DumpRes::Err(e) = &d.result {
+            // a requested region that lies wholly in the target's memory can always be copied (private
+            // pages the target cannot read itself are reachable through /proc/pid/mem and ptrace): a
+            // request that fails on it means the region does not appear
+            let k = &d.kernel_after;
+            let undisturbed = sc.events.is_empty() && !k.dead && sc.faults.iter().all(|f| matches!(f.trig.kind, CallKind::Vmreadv) || (f.trig.kind == CallKind::Open && f.trig.path.as_deref() == Some("/mem")));
+            if undisturbed && e.contains("SectionAppMemoryError") && !opts.app_memory.is_empty() && opts.app_memory.iter().all(|(p, l)| *l > 0 && k.accessible_run(*p, *l, true) == *l) {
+                out.push(v("C07", "app-region-request-failed", format!("every requested region lies wholly in the target's memory, but the request failed: {}", e.chars().take(200).collect::<String>())));
+            }
+        }
+    }
     let Some((d, img)) = util::first_ok(res) else { return out };
     let dec = decode::decode(img);
     let Some(mem) = &dec.memory else {
